@@ -656,3 +656,290 @@ Section Spans.
       cbn [obind mres]; try reflexivity; congruence.
   Qed.
 End Spans.
+
+(** *** Within-word automata and the main automaton *)
+Section Compile.
+  Variable f : span -> span.
+  Variable pick : nat -> list (list N) -> nat.
+  Variable fuel : nat.
+
+  Lemma from_input_msi sm i : from_input sm (msi f i) = from_input sm i.
+  Proof. destruct i; reflexivity. Qed.
+
+  Lemma omap_from_input_msi sm l : omap (from_input sm) (map (msi f) l) = omap (from_input sm) l.
+  Proof. induction l as [|i r IH]; cbn [map omap]; [reflexivity|]. rewrite from_input_msi, IH. reflexivity. Qed.
+
+  Lemma dfa_from_regex_msr sm x : dfa_from_regex pick fuel sm (msr f x) = dfa_from_regex pick fuel sm x.
+  Proof. unfold dfa_from_regex. cbn [msr r_inputs]. rewrite omap_from_input_msi. reflexivity. Qed.
+
+  Lemma compile_sub_msr x : compile_sub pick fuel (msr f x) = compile_sub pick fuel x.
+  Proof. unfold compile_sub. rewrite dfa_from_regex_msr. reflexivity. Qed.
+
+  (** interning *)
+  Lemma intern_app d subs : forall i k l,
+    intern_dfa d subs i = (k, subs) -> intern_dfa d (subs ++ l) i = (k, subs ++ l).
+  Proof.
+    induction subs as [|x r IH]; intros i k l H; cbn [intern_dfa app] in *.
+    - inversion H.
+    - destruct (dfa_eqb x d); [inversion H; subst; reflexivity|].
+      destruct (intern_dfa d r (N.succ i)) as [k' r'] eqn:E. inversion H; subst.
+      rewrite (IH _ _ l E). reflexivity.
+  Qed.
+
+  Lemma intern_shape d subs : forall i k subs',
+    intern_dfa d subs i = (k, subs') ->
+    (subs' = subs \/ subs' = subs ++ [d]) /\ intern_dfa d subs' i = (k, subs').
+  Proof.
+    induction subs as [|x r IH]; intros i k subs' H; cbn [intern_dfa] in H.
+    - inversion H; subst. split; [right; reflexivity|]. cbn [intern_dfa].
+      rewrite (proj2 (dfa_eqb_eq d d) eq_refl). reflexivity.
+    - destruct (dfa_eqb x d) eqn:E.
+      + inversion H; subst. split; [left; reflexivity|]. cbn [intern_dfa]. rewrite E. reflexivity.
+      + destruct (intern_dfa d r (N.succ i)) as [k' r'] eqn:E2. inversion H; subst.
+        destruct (IH _ _ _ E2) as [Hs Hi]. split.
+        * destruct Hs as [Hs|Hs]; rewrite Hs; [left|right]; reflexivity.
+        * cbn [intern_dfa]. rewrite E, Hi. reflexivity.
+  Qed.
+
+  Lemma intern_stable d d2 subs k k2 subs2 :
+    intern_dfa d subs 0 = (k, subs) -> intern_dfa d2 subs 0 = (k2, subs2) ->
+    intern_dfa d subs2 0 = (k, subs2).
+  Proof.
+    intros H H2. destruct (intern_shape _ _ _ _ _ H2) as [[Hs|Hs] _]; rewrite Hs; [exact H|].
+    apply intern_app. exact H.
+  Qed.
+
+  Definition K (pl : pool) (cache : list (N * N)) (subs : list dfa) : Prop :=
+    forall rid k, assocN rid cache = Some k ->
+      exists x d, nthN pl rid = Some x /\ compile_sub pick fuel x = Ok d /\ intern_dfa d subs 0 = (k, subs).
+
+  Lemma assocN_snoc {V} rid (cache : list (N * V)) rid0 k :
+    assocN rid (cache ++ [(rid0, k)]) =
+    match assocN rid cache with Some v => Some v | None => if N.eqb rid rid0 then Some k else None end.
+  Proof.
+    induction cache as [|[a b] r IH]; cbn [app assocN]; [reflexivity|].
+    destruct (N.eqb rid a); [reflexivity|exact IH].
+  Qed.
+
+  Lemma K_grow pl cache subs d2 k2 subs2 :
+    K pl cache subs -> intern_dfa d2 subs 0 = (k2, subs2) -> K pl cache subs2.
+  Proof.
+    intros HK H2 rid k Hk. destruct (HK rid k Hk) as (x & d & Hx & Hc & Hi).
+    exists x, d. repeat split; auto. eapply intern_stable; eauto.
+  Qed.
+
+  Lemma K_add pl cache subs rid x d k subs2 :
+    K pl cache subs -> nthN pl rid = Some x -> compile_sub pick fuel x = Ok d ->
+    intern_dfa d subs 0 = (k, subs2) -> K pl (cache ++ [(rid, k)]) subs2.
+  Proof.
+    intros HK Hx Hc Hi rid0 k0 H0. rewrite assocN_snoc in H0.
+    destruct (assocN rid0 cache) as [v|] eqn:E.
+    - inversion H0; subst v. eapply K_grow; eauto.
+    - destruct (N.eqb rid0 rid) eqn:En; [|discriminate]. apply N.eqb_eq in En. subst rid0.
+      inversion H0; subst k0. exists x, d. repeat split; auto.
+      destruct (intern_shape _ _ _ _ _ Hi) as [_ H]. exact H.
+  Qed.
+
+  Definition covers (cache : list (N * N)) (inputs : list rinput) (c : list (N * N)) : Prop :=
+    forall rid, (assocN rid cache <> None \/ In rid (sub_ids_of inputs)) -> assocN rid c <> None.
+
+  Definition drel (pl pl' : pool) (cache cache' : list (N * N)) (inputs inputs' : list rinput)
+             (x y : dres (list (N * N) * list dfa)) : Prop :=
+    match x, y with
+    | Ok (c, s), Ok (c', s') => s = s' /\ K pl c s /\ K pl' c' s
+                                /\ covers cache inputs c /\ covers cache' inputs' c'
+    | Err e, Err e' => e = e'
+    | Panic a, Panic b => a = b
+    | OutOfFuel, OutOfFuel => True
+    | _, _ => False
+    end.
+
+  Lemma covers_skip cache i inputs c : 
+    (match i with RSub _ _ _ => False | _ => True end) ->
+    covers cache inputs c -> covers cache (i :: inputs) c.
+  Proof.
+    intros Hi H rid Hr. apply H. destruct Hr as [Hr|Hr]; [left; exact Hr|right].
+    unfold sub_ids_of in *. cbn [flat_map] in Hr. destruct i; try destruct Hi; exact Hr.
+  Qed.
+
+  Lemma compile_subs_rel pl pl' inputs inputs' :
+    Forall2 (irel f pl pl') inputs inputs' ->
+    forall cache cache' subs, K pl cache subs -> K pl' cache' subs ->
+      drel pl pl' cache cache' inputs inputs'
+           (compile_subs pick fuel inputs pl cache subs) (compile_subs pick fuel inputs' pl' cache' subs).
+  Proof.
+    induction 1 as [|i i' r r' Hi Hr IH]; intros cache cache' subs HK HK'.
+    - cbn. repeat split; auto; intros rid [H|[]]; exact H.
+    - destruct i, i'; cbn in Hi; try contradiction; cbn [compile_subs].
+      1-3: (specialize (IH cache cache' subs HK HK');
+            destruct (compile_subs pick fuel r pl cache subs) as [[cc ss]| | |];
+            destruct (compile_subs pick fuel r' pl' cache' subs) as [[cc' ss']| | |]; cbn [drel] in IH |- *;
+            try contradiction; try exact IH;
+            destruct IH as (A & B & C & D & E); repeat split; auto; apply covers_skip; auto; exact I).
+      destruct Hi as (_ & _ & x & Hx & Hx').
+      assert (Hcov : forall cacheX ridX lX spX inputsX cX (kX : N),
+                 covers cacheX inputsX cX -> assocN ridX cacheX <> None ->
+                 covers cacheX (RSub ridX lX spX :: inputsX) cX).
+      { intros cacheX ridX lX spX inputsX cX kX H Hn rid1 [H1|H1]; [apply H; left; exact H1|].
+        unfold sub_ids_of in H1. cbn [flat_map app] in H1. destruct H1 as [H1|H1].
+        - subst rid1. apply H. left. exact Hn.
+        - apply H. right. exact H1. }
+      assert (Hcov2 : forall cacheX ridX kX lX spX inputsX cX,
+                 covers (cacheX ++ [(ridX, kX)]) inputsX cX ->
+                 covers cacheX (RSub ridX lX spX :: inputsX) cX).
+      { intros cacheX ridX kX lX spX inputsX cX H rid1 [H1|H1].
+        - apply H. left. rewrite assocN_snoc. destruct (assocN rid1 cacheX); [discriminate|congruence].
+        - unfold sub_ids_of in H1. cbn [flat_map app] in H1. destruct H1 as [H1|H1].
+          + subst rid1. apply H. left. rewrite assocN_snoc. destruct (assocN ridX cacheX); [discriminate|].
+            rewrite N.eqb_refl. discriminate.
+          + apply H. right. exact H1. }
+      pose proof (compile_sub_msr x) as Hcm.
+      destruct (assocN rid cache) as [k|] eqn:Ec; destruct (assocN rid0 cache') as [k'|] eqn:Ec'.
+      + (* both cached *)
+        specialize (IH cache cache' subs HK HK').
+        destruct (compile_subs pick fuel r pl cache subs) as [[c s]| | |];
+          destruct (compile_subs pick fuel r' pl' cache' subs) as [[c' s']| | |]; cbn [drel] in IH |- *;
+          try contradiction; try exact IH.
+        destruct IH as (A & B & C & D & E). repeat split; auto.
+        * eapply (Hcov cache rid l sp r c k); auto. congruence.
+        * eapply (Hcov cache' rid0 l0 (f sp) r' c' k'); auto. congruence.
+      + (* only the first run has it cached *)
+        rewrite Hx'. destruct (HK rid k Ec) as (x0 & d & Hx0 & Hc & Hin). rewrite Hx in Hx0. inversion Hx0; subst x0.
+        rewrite Hcm, Hc. cbn [obind]. rewrite Hin.
+        assert (HK2 : K pl' (cache' ++ [(rid0, k)]) subs).
+        { eapply K_add; eauto. rewrite Hcm. exact Hc. }
+        specialize (IH cache (cache' ++ [(rid0, k)]) subs HK HK2).
+        destruct (compile_subs pick fuel r pl cache subs) as [[c s]| | |];
+          destruct (compile_subs pick fuel r' pl' (cache' ++ [(rid0, k)]) subs) as [[c' s']| | |];
+          cbn [drel] in IH |- *; try contradiction; try exact IH.
+        destruct IH as (A & B & C & D & E). repeat split; auto.
+        * eapply (Hcov cache rid l sp r c k); auto. congruence.
+        * eapply Hcov2; eauto.
+      + (* only the second run has it cached *)
+        rewrite Hx. destruct (HK' rid0 k' Ec') as (x0 & d & Hx0 & Hc & Hin). rewrite Hx' in Hx0.
+        inversion Hx0; subst x0. rewrite Hcm in Hc. rewrite Hc. cbn [obind]. rewrite Hin.
+        assert (HK2 : K pl (cache ++ [(rid, k')]) subs) by (eapply K_add; eauto).
+        specialize (IH (cache ++ [(rid, k')]) cache' subs HK2 HK').
+        destruct (compile_subs pick fuel r pl (cache ++ [(rid, k')]) subs) as [[c s]| | |];
+          destruct (compile_subs pick fuel r' pl' cache' subs) as [[c' s']| | |];
+          cbn [drel] in IH |- *; try contradiction; try exact IH.
+        destruct IH as (A & B & C & D & E). repeat split; auto.
+        * eapply Hcov2; eauto.
+        * eapply (Hcov cache' rid0 l0 (f sp) r' c' k'); auto. congruence.
+      + (* both compile *)
+        rewrite Hx, Hx', Hcm.
+        destruct (compile_sub pick fuel x) as [d|e|m|] eqn:Hc; cbn [obind drel]; auto.
+        destruct (intern_dfa d subs 0) as [k subs2] eqn:Hin.
+        assert (HK2 : K pl (cache ++ [(rid, k)]) subs2) by (eapply K_add; eauto).
+        assert (HK2' : K pl' (cache' ++ [(rid0, k)]) subs2) by (eapply K_add; eauto).
+        specialize (IH _ _ subs2 HK2 HK2').
+        destruct (compile_subs pick fuel r pl (cache ++ [(rid, k)]) subs2) as [[c s]| | |];
+          destruct (compile_subs pick fuel r' pl' (cache' ++ [(rid0, k)]) subs2) as [[c' s']| | |];
+          cbn [drel] in IH |- *; try contradiction; try exact IH.
+        destruct IH as (A & B & C & D & E). repeat split; auto; eapply Hcov2; eauto.
+  Qed.
+
+  (** the labels of the main automaton *)
+  Lemma labels_eq pl pl' c c' subs inputs inputs' inputs0 inputs0' cache0 cache0' :
+    Forall2 (irel f pl pl') inputs inputs' ->
+    K pl c subs -> K pl' c' subs ->
+    covers cache0 inputs0 c -> covers cache0' inputs0' c' ->
+    incl (sub_ids_of inputs) (sub_ids_of inputs0) -> incl (sub_ids_of inputs') (sub_ids_of inputs0') ->
+    omap (from_input c) inputs = omap (from_input c') inputs'.
+  Proof.
+    intros HF HK HK' Hcov Hcov'. induction HF as [|i i' r r' Hi _ IH]; intros Hin Hin'; [reflexivity|].
+    cbn [omap].
+    assert (Hr : omap (from_input c) r = omap (from_input c') r').
+    { apply IH; intros x Hx; [apply Hin|apply Hin']; unfold sub_ids_of in *; cbn [flat_map];
+        apply in_or_app; right; exact Hx. }
+    rewrite Hr.
+    assert (Hh : from_input c i = from_input c' i').
+    { destruct i, i'; cbn in Hi; try contradiction; cbn [from_input].
+      - destruct Hi as (-> & -> & -> & _). reflexivity.
+      - reflexivity.
+      - destruct Hi as (-> & -> & -> & _). reflexivity.
+      - destruct Hi as (-> & _ & x & Hx & Hx').
+        assert (H1 : assocN rid c <> None).
+        { apply Hcov. right. apply Hin. unfold sub_ids_of. cbn. left. reflexivity. }
+        assert (H1' : assocN rid0 c' <> None).
+        { apply Hcov'. right. apply Hin'. unfold sub_ids_of. cbn. left. reflexivity. }
+        destruct (assocN rid c) as [k|] eqn:E; [|congruence].
+        destruct (assocN rid0 c') as [k'|] eqn:E'; [|congruence].
+        destruct (HK rid k E) as (x1 & d1 & A1 & B1 & C1).
+        destruct (HK' rid0 k' E') as (x2 & d2 & A2 & B2 & C2).
+        rewrite Hx in A1. inversion A1; subst x1. rewrite Hx' in A2. inversion A2; subst x2.
+        rewrite compile_sub_msr in B2. rewrite B1 in B2. inversion B2; subst d2.
+        rewrite C1 in C2. inversion C2. reflexivity. }
+    rewrite Hh. reflexivity.
+  Qed.
+
+  Definition ms_derr (e : derror) : derror :=
+    match e with
+    | DParse sp => DParse (f sp)
+    | DCheck ce => DCheck (ms_err f ce)
+    | DRegex re => DRegex (msrerr f re)
+    | DSubset _ | DAmb _ => e
+    end.
+
+  Definition dmap {A} (x : dres A) : dres A :=
+    match x with Ok a => Ok a | Err e => Err (ms_derr e) | Panic m => Panic m | OutOfFuel => OutOfFuel end.
+
+  Definition spanless (e : derror) : Prop :=
+    match e with DSubset _ | DAmb _ => True | _ => False end.
+
+  Lemma compile_sub_err x e : compile_sub pick fuel x = Err e -> spanless e.
+  Proof.
+    unfold compile_sub.
+    destruct (dfa_from_regex pick fuel [] x) as [raw|e0| |]; cbn [lift obind]; try discriminate.
+    2:{ intro H. inversion H. exact I. }
+    destruct (check_ambiguity_best_effort (fst raw)) as [[]|e1| |]; cbn [lift obind]; try discriminate.
+    2:{ intro H. inversion H. exact I. }
+    destruct (minimize (fst raw)) as [m|e2| |]; cbn [lift_noerr obind]; try discriminate.
+    destruct (check_ambiguity_best_effort m) as [[]|e3| |]; cbn [lift obind]; try discriminate.
+    intro H. inversion H. exact I.
+  Qed.
+
+  Lemma compile_subs_err inputs pl : forall cache subs e,
+    compile_subs pick fuel inputs pl cache subs = Err e -> spanless e.
+  Proof.
+    induction inputs as [|i r IH]; intros cache subs e H; cbn [compile_subs] in H; [discriminate|].
+    destruct i; try (eapply IH; exact H).
+    destruct (assocN rid cache); [eapply IH; exact H|].
+    destruct (nthN pl rid) as [x|]; [|discriminate].
+    destruct (compile_sub pick fuel x) as [d|e0| |] eqn:Ec; cbn [obind] in H; try discriminate.
+    - destruct (intern_dfa d subs 0). eapply IH; exact H.
+    - inversion H; subst. eapply compile_sub_err; exact Ec.
+  Qed.
+
+  (** [compile_valid] ignores spans *)
+  Theorem compile_valid_spans v :
+    flat_subwords (v_expr v) = true ->
+    compile_valid pick fuel (ms_valid f v) = dmap (compile_valid pick fuel v).
+  Proof.
+    intro Hf. unfold compile_valid, from_valid_expr. cbn [ms_valid v_expr].
+    pose proof (from_expr_rrel f (v_expr v) Hf) as Hr.
+    destruct (from_expr (v_expr v) []) as [[r pl]|e0|m0|] eqn:E1;
+      destruct (from_expr (ms f (v_expr v)) []) as [[r' pl']|e0'|m0'|] eqn:E2;
+      cbn [orel fst snd] in Hr; try contradiction; cbn [obind lift dmap]; try reflexivity;
+      [|congruence].
+    cbn [fst snd]. rewrite (check_ambiguities_rel f pl pl' r r' Hr).
+    destruct (check_ambiguities r pl) as [[]|e1|m1|]; cbn [mres obind lift dmap ms_derr]; try reflexivity.
+    destruct Hr as (Hroot & Hend & Har & Htree & Hin).
+    pose proof (compile_subs_rel pl pl' (r_inputs r) (r_inputs r') Hin [] [] []
+                  (fun rid k H => ltac:(discriminate)) (fun rid k H => ltac:(discriminate))) as Hc.
+    destruct (compile_subs pick fuel (r_inputs r) pl [] []) as [[c subs]|e2|m2|] eqn:Ecs;
+      destruct (compile_subs pick fuel (r_inputs r') pl' [] []) as [[c' subs']|e2'|m2'|];
+      cbn [drel] in Hc; try contradiction; cbn [obind dmap]; try congruence.
+    2:{ subst e2'. apply compile_subs_err in Ecs. destruct e2; try destruct Ecs; reflexivity. }
+    destruct Hc as (<- & HK & HK' & Hcov & Hcov').
+    assert (Hd : dfa_from_regex pick fuel c' r' = dfa_from_regex pick fuel c r).
+    { unfold dfa_from_regex.
+      rewrite (labels_eq pl pl' c c' subs (r_inputs r) (r_inputs r') (r_inputs r) (r_inputs r') [] []
+                         Hin HK HK' Hcov Hcov' (incl_refl _) (incl_refl _)).
+      unfold regex_first, regex_follow. rewrite Htree, Hend. reflexivity. }
+    rewrite Hd.
+    destruct (dfa_from_regex pick fuel c r) as [raw|e3|m3|]; cbn [lift obind dmap ms_derr]; try reflexivity.
+    destruct (minimize (fst raw)) as [m|e4|m4|]; cbn [lift_noerr obind dmap]; try reflexivity.
+    destruct (check_ambiguity_best_effort m) as [[]|e5|m5|]; reflexivity.
+  Qed.
+End Compile.
